@@ -26,7 +26,7 @@ let nodes : node list ref = ref []
 let run_tree order =
   let ns = List.sort (fun a b -> compare a.id b.id) !nodes in
   let find i = List.find (fun n -> n.id = i) ns in
-  let is_founder n = n.kind <> 'm' in
+  let is_founder n = n.kind <> 'm' && n.kind <> 'p' in
   let rec team_of n = if is_founder n then n.id else team_of (find n.parent) in
   let teams = Hashtbl.create 16 in
   List.iter (fun n -> if is_founder n then Hashtbl.replace teams n.id (team_init (n.kind = 's'))) ns;
@@ -34,7 +34,7 @@ let run_tree order =
   (* every body spawns its children before any gate opens *)
   List.iter (fun n -> if n.parent >= 0 then begin
       let pt = team_of (find n.parent) in
-      ignore (apply pt (if n.kind = 'm' then TMemberSpawn else TSubteamNew)) end) ns;
+      ignore (apply pt (if is_founder n then TSubteamNew else TMemberSpawn)) end) ns;
   let opened = Hashtbl.create 16 in
   let reported = Hashtbl.create 16 in
   let settle () =
@@ -54,10 +54,12 @@ let run_tree order =
           let may = if is_founder n then (Hashtbl.find teams n.id).t_lph = LDone else Hashtbl.mem opened n.id in
           Printf.printf " %d:%d" n.id (if may then 1 else 0)) ns;
       print_newline ();
-      Hashtbl.replace opened x ();
-      let n = find x in
-      if is_founder n then ignore (apply n.id TLeaderSubmit) else ignore (apply (team_of n) TMemberFinish);
-      settle ()) order;
+      if x >= 0 then begin
+        (* a negative token only satisfies a precondition: the member was counted from its spawn on, nothing changes *)
+        Hashtbl.replace opened x ();
+        let n = find x in
+        if is_founder n then ignore (apply n.id TLeaderSubmit) else ignore (apply (team_of n) TMemberFinish);
+        settle () end) order;
   print_string "J";
   List.iter (fun n ->
       let fin = if is_founder n then (Hashtbl.find teams n.id).t_lph = LDone else Hashtbl.mem opened n.id in
